@@ -18,8 +18,8 @@ claim("C02",
 claim("C16",
       "Bounded symbolic model check of every numeric/binary/boolean constructor: byteSize ranges over all ints, each argument over the full range of each of the 10 Go integer types, float32 and float64 (all bit patterns), "
       "in scalar/slice/mixed shapes and as short numeric strings; the result is compared with an independent clamp table (never wrapped, refusals give an error), on the accessor and on the wire bytes; "
-      "unsupported dynamic types and errored children at depth <=3 give errored, never-equal items; no path panics. The hsms/sml half (errored items refused by message constructors, builders and send calls) is decided in the hsms harness.",
-      "Trusted: executor + models, z3 (qffpbv tactic for FP paths), the clamp tables in the harness. Outside: typed-nil children, long numeric strings, float strings, more than 3 arguments.")
+      "unsupported dynamic types and errored children at depth <=3 give errored, never-equal items; no path panics; 8-byte items one element beyond the 16,777,215-byte payload limit are errored, the largest fitting ones are not. The hsms/sml half: errored items are refused by the three message construction routes, by the four item-taking session calls in every state (nothing written, enqueued, registered or counted) and never produced by the parser for out-of-range text.",
+      "Trusted: executor + models, z3 (qffpbv tactic for FP paths), the clamp tables in the harness. Outside: typed-nil children, long numeric strings, float strings, more than 3 arguments, the size limit of the 1-, 2- and 4-byte families (2^22..2^24 elements).")
 
 claim("C03",
       "Bounded symbolic model check of the real HSMS message constructors, serialisers, decoders, re-stamping helpers and buildFrameBuffers against a literal E37 8.2 frame layout: "
@@ -28,7 +28,7 @@ claim("C03",
       "Trusted: executor + models, z3, refFrame. Outside: the socket (the write is the net.Buffers handed to the transport), larger bodies (C01).")
 
 claim("C04",
-      "Bounded symbolic model check of (a) the three frame decode entry points on every byte string up to 19 bytes (thorough 22) and all 2^32 length fields: accepted iff well-formed, no panic, allocation bounded, "
+      "Bounded symbolic model check of (a) the three frame decode entry points on every byte string up to 19 bytes (thorough 20) and all 2^32 length fields: accepted iff well-formed, no panic, allocation bounded, "
       "bad bodies accepted at frame level with one shared decode result for all holders; (b) the real recvLoop/readFrame/readN over a scripted net.Conn for every pair (thorough: triple) of cut points with per-segment delays: "
       "same frames in order, deadline cleared iff at a frame boundary else exactly now+T8, idle gaps survive, in-frame gap > T8 or a length outside [10, cap] drops the link once without allocating.",
       "Trusted: executor + models, z3, the scripted net.Conn (deadline contract of net.Conn assumed). Outside: real kernel timing, >3 cuts, >2 frames.")
@@ -92,9 +92,9 @@ claim("C17",
 
 claim("C18",
       "Bounded symbolic model check of the per-block line discipline: every single-character corruption of header/body/checksum is rejected by parseBlock (all positions, all replacement values); the real sendBlock against every script of 4 (thorough 5) peer responses x retry limit 0..2 x role: "
-      "never more than limit+1 attempts between yields, ErrSendFailed after exactly limit+1, data written only as the block itself, nil only after an ACK, master never yields, slave delivers exactly the valid blocks it yielded for; receiveBlock answers exactly one ACK (valid) or NAK (anything else); a block retransmitted after a lost ACK is ACKed again and delivered once. "
+      "never more than limit+1 attempts between yields, ErrSendFailed after exactly limit+1, data written only as the block itself, nil only after an ACK, master never yields, slave delivers exactly the valid blocks it yielded for; receiveBlock answers exactly one ACK (valid) or NAK (anything else); a block retransmitted after a lost ACK is ACKed again and delivered once; a two-block message whose first block was NAKed once and retransmitted is delivered once and byte-identical. "
       "The two-endpoint exactly-once composition is NOT claimed.",
-      "Trusted: executor + scripted line model, z3. Outside/N-A: end-to-end two-endpoint composition under fault schedules, length-character corruption, multi-block messages over the faulty line.")
+      "Trusted: executor + scripted line model, z3. Outside/N-A: end-to-end two-endpoint composition under fault schedules, length-character corruption, multi-block fault scenarios other than the one retransmission.")
 
 claim("C13",
       "Bounded symbolic model check of the strict SML round trip on the real encoder and parser: ASCII items of 0..2 (thorough 3) bytes over all 256 byte values under 4 joint option/header configurations (thorough: all option combinations and boundary stream/function values), binary/boolean symbolic, all 8-bit integers, wider integers and floats on boundary/witness tables, nesting; "
@@ -102,8 +102,8 @@ claim("C13",
       "Trusted: executor + models (symbolic formatter, host float conversion), z3. Outside: float text beyond witnesses, JIS-8/localized text, symbolic wide integers, longer ASCII items.")
 
 claim("C14",
-      "Bounded symbolic model check of parser totality on 21 grammar-directed templates with fully symbolic holes, strict and non-strict: no panic on any path (every run-time panic site is an obligation), messages xor error, ParseError offset within the input with line/column equal to an independent recount, parsed messages valid, and an allocation guard of 64*len+4096 bytes with size hints up to 2^31-1 and beyond; two instances used alternately behave like fresh ones.",
-      "Trusted: executor + models, z3, native confirmation of allocation excess via runtime.MemStats. Outside/N-A: concurrent instances (race detector domain), wall-clock time/stack, more than 2 symbolic bytes per template.")
+      "Bounded symbolic model check of parser totality on 42 grammar-directed templates with fully symbolic holes (quick 37), strict and non-strict: no panic on any path (every run-time panic site is an obligation), termination within a step bound of 4000*len^2+200000 SSA instructions per parse, messages xor error, ParseError offset within the input with line/column equal to an independent recount, parsed messages valid, and an allocation guard of 64*len+4096 bytes with size hints from a table incl. the machine-word boundaries and as 10 (thorough 20) symbolic decimal digits; two instances used alternately behave like fresh ones.",
+      "Trusted: executor + models, z3, native confirmation of allocation excess via runtime.MemStats. Outside/N-A: concurrent instances (race detector domain), wall-clock time and stack depth, more than 2 symbolic bytes per template, inputs outside the templates.")
 
 claim("C15",
       "Bounded symbolic model check that the default encoder and Item.ToSML produce byte-identical text: both renderers run on the same symbolic item (16 leaf kinds with 0..2 elements, list trees to depth 2 with empty lists and empty-item children) with integer/boolean/binary/text contents symbolic and floats from a witness table, compared byte for byte; the rendering of integer, boolean and binary elements is parsed back to an Equal item.",
